@@ -219,7 +219,6 @@ func checkC05(ctx *Ctx, r *Report, tier string) {
 	interpSymmetry(ctx, r, "render", "mcInterpolate", "T8")
 	r.floor("T8", 2)
 
-
 	if tb == nil || ucm == nil || !validBits(ucm.bits, 3) {
 		return
 	}
